@@ -30,6 +30,26 @@ type EqTreeOpts struct {
 	MaxDepth int
 	Roots    []string // allowed root tags; "" entries mean a plain tag
 	Roles    bool     // HUSB/WIFE/CHIL below FAM roots
+	// Wide > 0: about one tree in Wide gets 40..160 more children under one node (plain nodes, exact
+	// DATE values and well-formed _UID values over a pool half as large as their number, so that
+	// duplicates and near-duplicates are frequent; no Before/After dates, so that the laws stay
+	// judged on wide trees)
+	Wide int
+}
+
+func wideChild(t *rapid.T, m int) *NodeBP {
+	k := rapid.IntRange(0, m/2).Draw(t, "wk")
+	switch rapid.IntRange(0, 4).Draw(t, "wkind") {
+	case 0:
+		return &NodeBP{Tag: "_A", Value: Str(fmt.Sprintf("v%d", k))}
+	case 1:
+		return &NodeBP{Tag: "NOTE", Value: Str(fmt.Sprintf("note %d", k%7))}
+	case 2:
+		return &NodeBP{Tag: "DATE", Value: Str(fmt.Sprintf("%d Sep %d", 1+k%28, 1800+k/28))}
+	case 3:
+		return &NodeBP{Tag: "_UID", Value: Str(fmt.Sprintf("%032X", k+1))}
+	}
+	return &NodeBP{Tag: "RESI", Kids: []*NodeBP{{Tag: "DATE", Value: Str(fmt.Sprintf("%d", 1800+k))}}}
 }
 
 func eqNode(t *rapid.T, tag string) *NodeBP {
@@ -114,6 +134,13 @@ func EqTree(o EqTreeOpts) *rapid.Generator[*NodeBP] {
 			p.Kids = append(p.Kids, c)
 			all, depth = append(all, c), append(depth, depth[pi]+1)
 		}
+		if o.Wide > 0 && rapid.IntRange(0, o.Wide-1).Draw(t, "wide") == o.Wide/2 {
+			p := all[rapid.IntRange(0, len(all)-1).Draw(t, "wideparent")]
+			m := rapid.IntRange(40, 160).Draw(t, "widen")
+			for j := 0; j < m; j++ {
+				p.Kids = append(p.Kids, wideChild(t, m))
+			}
+		}
 		return root
 	})
 }
@@ -126,6 +153,17 @@ func BuildTree(root *NodeBP) (*gedcom.Document, gedcom.Node, map[*NodeBP]gedcom.
 	f.FixRoles()
 	b := f.Build()
 	return b.Doc, b.Nodes[root], b.Nodes
+}
+
+// MaxFanout is the largest number of children of any node of the tree.
+func MaxFanout(root *NodeBP) int {
+	m := 0
+	root.Walk(0, func(n *NodeBP, _ int) {
+		if len(n.Kids) > m {
+			m = len(n.Kids)
+		}
+	})
+	return m
 }
 
 // HasSameKindSiblings reports whether some node has two children with the same
